@@ -7,7 +7,7 @@
    All statements are for ALL sizes n, k, c, numbers of factors / blocks / repeats. *)
 From mathcomp Require Import all_ssreflect all_algebra.
 Require Import C04.Model C04.ProofsBridge C04.ProofsTri C04.ProofsChol C04.ProofsStruct C04.ProofsKron
-               C04.ProofsEig C04.ProofsBlock C04.ProofsAlg.
+               C04.ProofsEig C04.ProofsBlock C04.ProofsAlg C04.ProofsCholFactor C04.ProofsSound C04.ProofsSelect.
 Set Implicit Arguments.
 Unset Strict Implicit.
 Unset Printing Implicit Defensive.
@@ -117,6 +117,78 @@ Theorem C04_eigshift_identity (F : rcfType) n (Q : 'M[F]_n) (w : 'rV[F]_n) (sigm
   (Q *m diag_mx w *m Q^T + sigma%:M) *m
     (Q *m diag_mx (sinv w sigma) *m (diag_mx (sinv w sigma) *m (Q^T *m b))) = b.
 Proof. by move=> QtQ pos; exact: eigshift_identity. Qed.
+
+(* ---------------------------------------------------------------- real closed field: square roots *)
+Section Rcf.
+Variable F : rcfType.
+Local Notation RA := (FA (@rsq F) (@rlt F)).
+
+(* the Cholesky–Banachiewicz kernel (model of cholesky_ex) really factorises: info = 0 on a symmetric M
+   ==> L lower triangular, non-zero diagonal, L L^T = M *)
+Theorem C04_chol_factor_correct n (M L : mat F) : chol RA n M = (L, 0%N) -> symmetric n M ->
+  [/\ lower_tri (@rsq F) (@rlt F) n L, diag_nz (@rsq F) (@rlt F) n L
+    & mx_of (@rsq F) (@rlt F) n n L *m (mx_of (@rsq F) (@rlt F) n n L)^T = mx_of (@rsq F) (@rlt F) n n M].
+Proof. exact: chol_factor_correct. Qed.
+
+(* THE ALGORITHM, leaf classes (Dense-like, AddedDiag, Diag, Identity, Chol, Triangular over a dense tensor,
+   LowRankRootAddedDiag): for EVERY settings record, whatever method select_solve picks, a value returned by
+   alg_solve solves the system column by column *)
+Theorem C04_alg_solve_sound_leaf (s : settings) (o : opd F) (B X : cols F) :
+  wf_leaf o -> all (fun b => size b == osize o) B ->
+  alg_solve RA s o B None = Some X ->
+  size X = size B /\ forall j, (j < size B)%N -> solves o (nth [::] X j) (nth [::] B j).
+Proof. exact: alg_solve_sound_leaf. Qed.
+
+(* … and with a left factor the result is L times such a solution (own-solve classes and Solve.forward) *)
+Theorem C04_alg_solve_sound_leaf_left (s : settings) (o : opd F) (B Y : cols F) k (L : mat F) :
+  wf_leaf o -> all (fun b => size b == osize o) B ->
+  alg_solve RA s o B (Some (k, L)) = Some Y ->
+  exists X, [/\ size X = size B, forall j, (j < size B)%N -> solves o (nth [::] X j) (nth [::] B j)
+              & Y = left_mul RA k (osize o) L X].
+Proof. exact: alg_solve_sound_leaf_left. Qed.
+
+(* permutation operators on the structured branch *)
+Theorem C04_alg_solve_sound_perm (s : settings) (p : seq nat) (B X : cols F) :
+  uniq p -> all (fun x => (x < size p)%N) p -> all (fun b => size b == size p) B ->
+  fast_solves s -> (max_cholesky_size s < size p)%N ->
+  alg_solve RA s (DPerm F p) B None = Some X ->
+  size X = size B /\ forall j, (j < size B)%N -> solves (DPerm F p) (nth [::] X j) (nth [::] B j).
+Proof. exact: alg_solve_sound_perm. Qed.
+
+(* hypotheses are satisfiable, and alg_solve does return a value there *)
+Example C04_wf_leaf_sat :
+  wf_leaf (DDiag 2 [:: 1; 1 : F]) /\ wf_leaf (DGeneric 2 [:: [:: 1; 0]; [:: 0; 1 : F]]) /\
+  wf_leaf (DTriDense true 2 [:: [:: 1; 1]; [:: 0; 1 : F]]).
+Proof.
+split; first by move=> [|[|i]] //= _; rewrite /Model.vget /= oner_neq0.
+split; first by split=> // -[|[|i]] [|[|j]].
+split; first by move=> [|[|i]] [|[|j]].
+by move=> [|[|i]] //= _; rewrite /Model.get /= oner_neq0.
+Qed.
+
+Example C04_alg_solve_returns (s : settings) :
+  exists X, alg_solve RA s (DDiag 2 [:: 1; 1 : F]) [:: [:: 1; 0]] None = Some X.
+Proof. by eexists; rewrite /alg_solve /select_solve /=; reflexivity. Qed.
+
+End Rcf.
+
+(* ---------------------------------------------------------------- the selector: all settings, all class trees *)
+(* fast_computations.solves off, or size within max_cholesky_size: every class, at any nesting depth, is
+   solved by a direct method (no conjugate gradients) *)
+Theorem C04_select_direct (s : settings) (c : cls) :
+  ~~ fast_solves s || (csize c <= max_cholesky_size s)%N -> direct (select_solve s c).
+Proof. exact: select_direct. Qed.
+
+(* conjugate gradients at the top level only with fast solves on and size above max_cholesky_size *)
+Theorem C04_select_cg_only_when (s : settings) (c : cls) p r :
+  select_solve s c = MCG p r -> fast_solves s /\ (max_cholesky_size s < csize c)%N.
+Proof. exact: select_cg_only_when. Qed.
+
+(* the threshold is observable (non-vacuity): just above it the generic class switches to CG *)
+Example C04_select_threshold :
+  let s := MkSettings 5 true 1000 15 2000 false false in
+  select_solve s (CGeneric 5) = MCholesky (PDense 5) /\ select_solve s (CGeneric 6) = MCG false 0.
+Proof. by []. Qed.
 
 (* ---------------------------------------------------------------- non-vacuity *)
 Section Examples.
